@@ -70,6 +70,12 @@ def check(ctx):
                   "the caller's buckets_size is read when an existing hash table is opened", where=where(hopen))
     # destructive operations: expected count zero (positive control: the fixture crate)
     d = k5.matches(prog, k5.DESTRUCTIVE)
+    from . import poscontrol
+    poscontrol.regex_control(ctx, "destructive-fs", k5.DESTRUCTIVE, "destructive_create")
+    poscontrol.regex_control(ctx, "destructive-fs", k5.DESTRUCTIVE, "destructive_remove")
+    poscontrol.regex_control(ctx, "leak", k5.LEAK, "leak_forget")
+    poscontrol.regex_control(ctx, "leak", k5.LEAK, "leak_exit")
+    poscontrol.nondet_control(ctx)
     ctx.check(not d, "open-never-destroys", "no-destructive-fs-calls", "the lib calls %s" % sorted({t["callee"] for f, b, t in d}),
               where="; ".join(where(f, b) for f, b, t in d[:4]))
     # (3) leaks
